@@ -40,7 +40,10 @@ prop('C09',
 
 prop('C01',
      [('R00', cf.r00_helper_semantics), ('R01', cf.r01_total_sweep), ('R02', cf.r02_elect_sites), ('R03', bt.r03_batch_cap), ('R03b', bt.r03b_defeat_remaining), ('R03c', bt.r03c_single_defeat_guard), ('R04', lp.r04_loops), ('R05', cf.r05_status_ownership),
-      ('R38', rr.r38_first_and_last_action), ('R51', nm.r51_no_unbound_names), ('R28', ps.r28_strip_complete)],
+      ('R38', rr.r38_first_and_last_action), ('R51', nm.r51_no_unbound_names), ('R28', ps.r28_strip_complete),
+      # R13: the quota form is what keeps seats+1 candidates from all reaching the quota (more winners than seats);
+      # R18: a sure-loser batch holds only candidates that cannot be elected (mpls caps it with the write-ins counted in, see F2(i))
+      ('R13', qt.r13_quota), ('R18', ti.r18_sure_loser_strict)],
      'Static analysis of /repo source over the count() of every registered rule class (CFG path rules with a small '
      'path-sensitive fact domain, candidate-derivation dataflow): every path to the end of count() completes a total '
      'elect-or-defeat sweep; every elect site is justified by a quota test, a seat guard or a pending receiver; every batch '
@@ -99,7 +102,7 @@ prop('C18',
      ['textual agreement of report/dump/JSON figures (they print str() of the same stored object)'])
 prop('C15',
      [('R26', ps.r26_cid_sanitiser), ('R26d', ps.r26d_tokenizer_precedence), ('R27', ps.r27_typecode_capacity), ('R28', ps.r28_strip_complete),
-      ('R29', ps.r29_ballot_count_pairing), ('R30', ps.r30_validation)],
+      ('R29', ps.r29_ballot_count_pairing), ('R30', ps.r30_validation), ('R52', ps.r52_optional_tail)],
      'Static analysis of droop/profile.py: every candidate ID that enters a set, an order, a name table or a ranking '
      'flows (reaching definitions) from getCid or a 1..nCand range; the ranking array item type can hold every valid ID '
      'of its branch; the withdrawn strip tests every element; nBallots grows exactly on the paths that keep a line; the '
@@ -131,7 +134,7 @@ prop('C12',
      ['nothing of the algebra beyond trust in CPython int/divmod and fractions.Fraction'])
 
 prop('C13',
-     [('R23', va.r23_comparisons), ('R21', va.r21_scale_rounding), ('R24', va.r24_guard0_equivalence)],
+     [('R23', va.r23_comparisons), ('R21', va.r21_scale_rounding), ('R24', va.r24_guard0_equivalence), ('R25', va.r25_printing)],
      'Static analysis of droop/values/guarded.py: the six comparisons are projections of one three-valued __cmp__ that '
      'returns 0 exactly under |a-b| < 10^guard // 2 (at least 1) and otherwise the sign of the stored difference '
      '(trichotomy follows); the guard == 0 summaries of every Guarded operation equal the Fixed summaries, operation by '
@@ -170,7 +173,8 @@ prop('C11',
       'withdrawn stripped completely (R28)', 'withdrawn ids validated (R26)'],
      ['equality of winners/tallies under renumbering and record equality with the candidate deleted (metamorphic, two runs)'])
 prop('C06',
-     [('R00', cf.r00_helper_semantics), ('R07', gr.r07_transfer_once), ('R08', gr.r08_reset_pairing), ('R09', gr.r09_reweighting), ('R21', va.r21_scale_rounding)],
+     [('R00', cf.r00_helper_semantics), ('R07', gr.r07_transfer_once), ('R08', gr.r08_reset_pairing), ('R09', gr.r09_reweighting), ('R21', va.r21_scale_rounding),
+      ('R13', qt.r13_quota)],   # R13: a surplus is non-negative only if the election test implies tally >= quota in the arithmetic's own order
      'Static analysis of the five Gregory-family rules: transfer() credits every ballot exactly once (candidate or '
      'non-transferable total) and walks to the next continuing candidate; tallies are written only by the first count, '
      'transfer() and the two resets, each reset preceded by the transfer of every ballot standing to that candidate; ballot '
@@ -193,7 +197,7 @@ prop('C10',
      ['equality of whole records under re-presentation (metamorphic)', 'tokenizer layout/comment/nickname behaviour'])
 prop('C08',
      [('R00', cf.r00_helper_semantics), ('R10', mk.r10_residual_pairing), ('R10c', mk.r10c_keep_split), ('R11', mk.r11_keep_factors), ('R12', mk.r12_iteration_exits),
-      ('R14', qt.r14_elect_before_exclude), ('R04', lp.r04_loops), ('R21', va.r21_scale_rounding)],
+      ('R14', qt.r14_elect_before_exclude), ('R04', lp.r04_loops), ('R21', va.r21_scale_rounding), ('R29', ps.r29_ballot_count_pairing)],
      'Static analysis of meek.py and meek_prf.py: in every block of the distribution loops the expressions credited to a '
      'tally are exactly those debited from the ballot residual, residuals start at the multiplier and are summed once per '
      'ballot, tallies and the round residual are zeroed first (with exact add/sub, R21, votes + residual = ballots); keep '
@@ -219,7 +223,7 @@ prop('C04',
 
 prop('C02',
      [('R00', cf.r00_helper_semantics), ('R07', gr.r07_transfer_once), ('R08', gr.r08_reset_pairing), ('R09', gr.r09_reweighting), ('R10', mk.r10_residual_pairing), ('R10b', mk.r10b_redistribute_before_record), ('R10c', mk.r10c_keep_split), ('R29', ps.r29_ballot_count_pairing),
-      ('R19', gr.r19_multiplier_last), ('R21', va.r21_scale_rounding), ('R22', va.r22_closure)],
+      ('R19', gr.r19_multiplier_last), ('R21', va.r21_scale_rounding), ('R22', va.r22_closure), ('R37', rr.r37_status_changes_logged)],
      'Static analysis of the bookkeeping shape that conservation rests on: a transferred ballot is credited exactly once '
      '(candidate or non-transferable total); a tally is reset only after all its ballots were passed on; transfer values '
      'are old x surplus / tally rounded down (a transfer cannot create votes); Meek credits and residual debits are the same '
